@@ -44,3 +44,24 @@ pub fn parse_response_outcome(
         Err(nom::Err::Failure(_)) => ("failure", None),
     }
 }
+
+/// The RFC 2822 grammar alone (before `Address::new` validates the parts): display name, local
+/// part and domain of a single mailbox, or of every mailbox of a list
+#[cfg(feature = "builder")]
+pub fn parse_mailbox_grammar(s: &str) -> Option<(Option<String>, String, String)> {
+    use chumsky::Parser;
+    crate::message::verif_parsers::mailbox()
+        .parse(s)
+        .ok()
+        .map(|(n, (u, d))| (n, u, d))
+}
+
+/// See [`parse_mailbox_grammar`]
+#[cfg(feature = "builder")]
+pub fn parse_mailbox_list_grammar(s: &str) -> Option<Vec<(Option<String>, String, String)>> {
+    use chumsky::Parser;
+    crate::message::verif_parsers::mailbox_list()
+        .parse(s)
+        .ok()
+        .map(|v| v.into_iter().map(|(n, (u, d))| (n, u, d)).collect())
+}
